@@ -7,6 +7,7 @@
 import Lomond.Proofs.ThreadsN
 import Lomond.Proofs.ThreadsNW
 import Lomond.Proofs.ThreadsZ
+import Lomond.Proofs.ThreadsDead
 set_option linter.unusedSimpArgs false
 set_option linter.unusedVariables false
 
@@ -18,7 +19,7 @@ def Env.NoFail (env : Env) : Prop := ∀ t i, env.failAt t i = none
 
 theorem execW2_nofail (env : Env) (h : env.NoFail) (v : Variant) (t : Tid) (f : FrameSrc) (r : List Step)
     (sh : Shared) (c : Cur) : execW2 env t f r sh c = exec v t (.write2 f) r sh c := by
-  unfold execW2; rw [h]; rfl
+  unfold execW2; rw [h]; simp [exec]
 
 theorem step_w2 (v : Variant) (cfg : Cfg) (s : State) (t : Tid) (c : Cur) (f : FrameSrc) (r : List Step)
     (hc : (s.th t).current v cfg = some c) (hr : c.rest = .write2 f :: r) :
@@ -31,11 +32,11 @@ theorem step_w2 (v : Variant) (cfg : Cfg) (s : State) (t : Tid) (c : Cur) (f : F
 
 theorem zpos_w1_w2 (f : FrameSrc) (r r2 : List Step) : zpos (.write2 f :: r2) = zpos (.write1 f :: r) := rfl
 
-theorem zInv_stepN (env : Env) (hnf : env.NoFail) (v : Variant) (cfg : Cfg) (s : State) (t : Tid)
-    (hvz : v.compressUnderLock = true) (B : BaseN v cfg s) (Z : ZInv v cfg s) :
-    ZInv v cfg (stepN env v cfg s t) := by
+theorem zLive_stepN (env : Env) (hnf : env.NoFail) (v : Variant) (cfg : Cfg) (s : State) (t : Tid)
+    (hvz : v.compressUnderLock = true) (B : BaseN v cfg s) (Z : ZLive v cfg s) (hns : s.sh.sockShut = false) :
+    ZLive v cfg (stepN env v cfg s t) := by
   rcases stepN_cases env v cfg s t with ⟨_, e⟩ | ⟨c, f, r, hc, hr, e⟩ | ⟨c, f, r, hc, hr, e⟩
-  · rw [e]; exact zInv_stepLC v cfg s t hvz B.L B.C Z
+  · rw [e]; exact zLive_stepLC v cfg s t hvz B.L B.C Z hns
   · rw [e]
     have hh := current_not_halted hc
     have hv : view v cfg (s.th t) = .write1 f :: r := by rw [view_of_current hc, hr]
@@ -49,10 +50,11 @@ theorem zInv_stepN (env : Env) (hnf : env.NoFail) (v : Variant) (cfg : Cfg) (s :
         frames p.1.wire = frames s.sh.wire ∧ p.1.zpend = s.sh.zpend ∧ p.1.zctx = s.sh.zctx ∧ p.2.zout = c.zout ∧
         p.2.idx = c.idx := by
       cases o with
-      | fail hf => rw [hnf] at hf; cases hf
-      | skip _ _ => subst hr2; exact ⟨by simp, zdisc_tail z, rfl, rfl, rfl, rfl, rfl, rfl⟩
-      | stay _ _ => exact ⟨by simp, z, rfl, frames_w1 _ _ rfl, rfl, rfl, rfl, rfl⟩
-      | adv _ _ _ => subst hr2; exact ⟨by simp, zdisc_tail z, rfl, frames_w1 _ _ rfl, rfl, rfl, rfl, rfl⟩
+      | dead hs => rw [hns] at hs; cases hs
+      | fail _ hf => rw [hnf] at hf; cases hf
+      | skip _ _ _ => subst hr2; exact ⟨by simp, zdisc_tail z, rfl, rfl, rfl, rfl, rfl, rfl⟩
+      | stay _ _ _ => exact ⟨by simp, z, rfl, frames_w1 _ _ rfl, rfl, rfl, rfl, rfl⟩
+      | adv _ _ _ _ => subst hr2; exact ⟨by simp, zdisc_tail z, rfl, frames_w1 _ _ rfl, rfl, rfl, rfl, rfl⟩
     obtain ⟨hne, hzd, hzp, hfr, hzpend, hzctx, hzout, hi⟩ := hcommon
     have hview : view v cfg (settle (s.th t) p.2) = p.2.rest := view_settle_ne v cfg _ _ hh hne
     constructor
@@ -89,7 +91,44 @@ theorem zInv_stepN (env : Env) (hnf : env.NoFail) (v : Variant) (cfg : Cfg) (s :
       · have := hall u
         rwa [setTh_other _ _ _ _ _ hu] at this
   · rw [e, execW2_nofail env hnf v, ← step_w2 v cfg s t c f r hc hr]
-    exact zInv_stepLC v cfg s t hvz B.L B.C Z
+    exact zLive_stepLC v cfg s t hvz B.L B.C Z hns
+
+theorem zInv_stepN (env : Env) (hnf : env.NoFail) (v : Variant) (cfg : Cfg) (s : State) (t : Tid)
+    (hvz : v.compressUnderLock = true) (B : BaseN v cfg s) (Z : ZInv v cfg s) :
+    ZInv v cfg (stepN env v cfg s t) := by
+  cases hsx : s.sh.sockShut with
+  | false => exact (zLive_stepN env hnf v cfg s t hvz B (Z.live hsx) hsx).inv
+  | true =>
+    obtain ⟨hw, hsh⟩ := stepN_shut env v cfg s t hsx
+    refine ⟨?_, ?_, fun hn => by rw [hsh] at hn; cases hn⟩
+    · -- the discipline of the programs: as in the model with two chunks, or the writer moves on to its release
+      rcases stepN_cases env v cfg s t with ⟨_, e⟩ | ⟨c, f, r, hc, hr, e⟩ | ⟨c, f, r, hc, hr, e⟩
+      · rw [e]; exact (zInv_stepLC v cfg s t hvz B.L B.C Z).dz
+      · rw [e]
+        have hv : view v cfg (s.th t) = .write1 f :: r := by rw [view_of_current hc, hr]
+        have z : zdisc cfg.noTakeover (.write1 f :: r) = true := hv ▸ Z.dz t
+        intro u
+        by_cases hu : u = t
+        · subst hu
+          rw [setTh_same]
+          refine view_settle_zdisc v cfg _ _ hvz (current_not_halted hc) ?_
+          simp only [execW1, failWrite, hsx, if_true]
+          exact zdisc_suffix (toRelease_suffix r) (zdisc_tail z)
+        · rw [setTh_other _ _ _ _ _ hu]; exact Z.dz u
+      · rw [e]
+        have hv : view v cfg (s.th t) = .write2 f :: r := by rw [view_of_current hc, hr]
+        have z : zdisc cfg.noTakeover (.write2 f :: r) = true := hv ▸ Z.dz t
+        intro u
+        by_cases hu : u = t
+        · subst hu
+          rw [setTh_same]
+          refine view_settle_zdisc v cfg _ _ hvz (current_not_halted hc) ?_
+          simp only [execW2, failWrite, hsx, if_true]
+          exact zdisc_suffix (toRelease_suffix r) (zdisc_tail z)
+        · rw [setTh_other _ _ _ _ _ hu]; exact Z.dz u
+    · obtain ⟨ms, h1, h2⟩ := Z.dec
+      refine ⟨ms, by rw [hw]; exact h1, ?_⟩
+      intro x hx; rw [stepN_prog]; exact h2 x hx
 
 theorem zInv_runN (env : Env) (hnf : env.NoFail) (v : Variant) (cfg : Cfg) (s : State) (sched : List Tid)
     (hvz : v.compressUnderLock = true) (B : BaseN v cfg s) (Z : ZInv v cfg s) :
